@@ -216,6 +216,26 @@ class ModelFittingDataTree(ProblemSingleObjective):
             )
             self.target_full_scale = targets
 
+            # The regions selected in the simulated data and in the target(s)
+            # must have the same extent
+            geometry = processor.detector.geometry
+            full_sizes = (len(self.readout.times), geometry.row, geometry.col)
+            out_shape = tuple(
+                len(range(*fit_slice.indices(size)))
+                for fit_slice, size in zip(
+                    out_fit_range.to_slices(), full_sizes, strict=True
+                )
+            )
+            target_shape = tuple(self.all_target_data.shape[1:])
+            if len(target_shape) == 2:
+                target_shape = (1, *target_shape)
+
+            if out_shape != target_shape:
+                raise ValueError(
+                    f"Fitting ranges select regions of different sizes: {out_shape} "
+                    f"in the simulated data and {target_shape} in the target data."
+                )
+
     def get_bounds(self) -> tuple[Sequence[float], Sequence[float]]:
         """Get the box bounds of the problem (lower_boundary, upper_boundary).
 
